@@ -158,7 +158,7 @@ Proof.
     destruct ((c =? 0) || (c =? 10) && has flg REG_NEWLINE); [eexists; reflexivity|].
     pose proof (uclen_at_le line p). assert (L : Nat.leb (p + re_uclen_at line p) (length line) = true) by (apply Nat.leb_le; lia). rewrite L. eexists; reflexivity.
   - destruct (ucdec_ok line p Hp) as [c D]. rewrite D. cbn [bind].
-    destruct ((c =? 0) || (c =? 10) && has flg REG_NEWLINE && (nthb s 1 =? 94)); [eexists; reflexivity|].
+    destruct ((c =? 0) || (c =? 10) && has flg REG_NEWLINE); [eexists; reflexivity|].
     destruct (rdk_in SOther line p Hp) as [c0 R]. rewrite R. cbn [bind].
     pose proof (uclen_at_le line p). assert (L : Nat.leb (p + re_uclen_at line p) (length line) = true) by (apply Nat.leb_le; lia). rewrite L. cbn [negb].
     destruct (brk_match2_ok (has flg REG_ICASE) (tl s) c) as [r B]. rewrite B. cbn [bind]. destruct r; eexists; reflexivity.
